@@ -7,7 +7,7 @@
    fingers 1..48-B all have the target of model finger 1).  Positions are 0..2^B-1.
    Properties: C09 Terminates (no lookup forwards to itself for ever), C01 LookupCorrect on a correct
    ring, C02 convergence of predecessor / successor list / fingers after churn. *)
-EXTENDS ChordKV
+EXTENDS ChordKV, Json
 
 CONSTANTS B,         \* model finger count; ring of 2^B positions
           FixSelf    \* TRUE: FindSuccessor forwards to the successor when no finger precedes the key
@@ -108,10 +108,31 @@ RMembership ==
 
 RNext == (RMembership \/ RMaint) /\ UNCHANGED ops
 RSpec == RInit /\ [][RNext]_vars
-RFairSpec == RSpec /\ WF_vars(RMembership) /\ \A n \in NodesOf(MCLayout) :
+RFairSpec == RSpec /\ WF_vars(RMembership /\ UNCHANGED ops) /\ \A n \in NodesOf(MCLayout) :
                 WF_vars(Live(s, n) /\ s' = StabilizeF(s, n) /\ s' # s /\ UNCHANGED ops)
              /\ WF_vars(Live(s, n) /\ s' = CheckPredF(s, n) /\ s' # s /\ UNCHANGED ops)
              /\ WF_vars(Live(s, n) /\ TasksStarted(s, n) /\ s.succ[n] # <<>> /\ s' = FixFingerF(s, n) /\ s' # s /\ UNCHANGED ops)
+
+(* ---- C01 table: every member set of positions (up to MaxMembers), the correct ring for it, every (start, key) lookup *)
+CONSTANT MaxMembers
+REmit(r) == PrintT("@@" \o ToJson(r))
+RECURSIVE SortedSeq(_)
+SortedSeq(S) == IF S = {} THEN <<>> ELSE LET m == CHOOSE x \in S : \A y \in S : x <= y IN <<m>> \o SortedSeq(S \ {m})
+TableInit == /\ ops = <<>>
+             /\ \E S \in SUBSET (0..(M - 1)) : S # {} /\ Cardinality(S) <= MaxMembers /\
+                   s = RingInit([npos |-> SortedSeq(S), kpos |-> <<>>], 1..Cardinality(S))
+TableNext == /\ ops = <<>> /\ ops' = <<1>> /\ s' = s
+             /\ REmit([c |-> [pos |-> s.lay.npos],
+                       e |-> [owner |-> [key \in 1..M |-> s.lay.npos[OwnerOf(s.lay, Members(s), key - 1)]]]])
+TableSpec == TableInit /\ [][TableNext]_vars
+(* hop bound: a lookup on a correct ring needs at most one hop per member *)
+RECURSIVE Hops(_, _, _, _)
+Hops(x, n, key, fuel) ==
+  IF fuel = 0 THEN 99
+  ELSE IF x.pred[n] # Nil /\ PB(x.lay, x.pred[n], key, n, TRUE) THEN 0
+  ELSE IF PB(x.lay, n, key, Hd(x, n), TRUE) THEN 0
+  ELSE LET c == Closest(x, n, key) IN 1 + Hops(x, IF c = n THEN Hd(x, n) ELSE c, key, fuel - 1)
+InvHopBound == RingCorrect(s) => \A n \in Members(s), key \in 0..(M - 1) : Hops(s, n, key, 20) <= Cardinality(Members(s))
 
 InvTerminates == Terminates(s)
 InvLookupCorrect == LookupCorrect(s)
